@@ -57,6 +57,7 @@ fn main() {
                 "C08" => props::c08::run(&cx),
                 "C09" => props::c09::run(&cx),
                 "C10" => props::c10::run(&cx),
+                "C15" => props::c15::run(&cx),
                 "C16" => props::c16::run(&cx),
                 "C17" => props::c17::run(&cx),
                 "C18" => props::c18::run(&cx),
